@@ -2,6 +2,7 @@
 //   mode "two": two global transactions operate on the same rows one operation at a time (writes and
 //               SELECT .. FOR UPDATE); the coordinator stand-in keeps its lock table from the lock keys
 //               the client really sends.
+//   mode "race": the operations of the two global transactions overlap in time (race.go, ATLocks_Race.tla).
 //   mode "cover": single branches (the ATRollback C01 scenario set): the lock keys of the registration
 //               must name every row the local transaction changed, and one row must always get the
 //               same key text whatever statement form touched it.
@@ -61,6 +62,17 @@ func main() {
 			common.Fatal("scenario %d: %v", i, err)
 		}
 		r := o.Rand(int64(i))
+		if o.Mode == "race" {
+			var rs raceScenario
+			if err := json.Unmarshal(raw, &rs); err != nil {
+				common.Fatal("scenario %d: %v", i, err)
+			}
+			schema := fam[(i+int(o.Seed))%2]
+			t := w.Begin(map[string]interface{}{"i": i, "sc": rs, "schema": schema.Name}, "race,schema="+schema.Name)
+			race(lab, t, rs, schema, atlab.Style{InList: r.Intn(2) == 0})
+			t.Close()
+			continue
+		}
 		if o.Mode == "cover" {
 			schemas := []*atlab.Schema{fam[0], fam[1], fam[2], fam[5]}
 			if o.Thorough() {
